@@ -582,6 +582,7 @@ func calculateHashes(numLeaves uint64, delHashes []Hash, proof Proof) (hashAndPo
 		// row is lower than totalRows.
 		maxPos, _ := maxPositionAtRow(row, totalRows, numLeaves)
 		for provePos > maxPos {
+			verifTick("calculateHashes.row")
 			row++
 			maxPos, _ = maxPositionAtRow(row, totalRows, numLeaves)
 		}
@@ -851,6 +852,7 @@ func getNewPositions(blockTargets []uint64, slice hashAndPos, numLeaves uint64, 
 		}
 
 		for pos > maxPossiblePosAtRow(row, totalRows) && row <= totalRows {
+			verifTick("getNewPositions.row")
 			row++
 		}
 		if row > totalRows {
